@@ -316,7 +316,7 @@ func init() {
 					}
 				}
 				ex.Release()
-				vsched.Quiet(func() { nb.StopForce() })
+				dropNode(nb)
 				return fmt.Sprint(got)
 			}})
 		}})
